@@ -251,7 +251,7 @@ def classes(*rs: tuple) -> List[str]:
         _charsets(r, sets, seen)
     sig: Dict[tuple, str] = {}
     ordered = sorted(sets, key=lambda s: (len(s), sorted(s)))
-    for ch in sorted(UNIVERSE, key=lambda c: (not c.isalpha(), not c.islower(), c)):
+    for ch in sorted(UNIVERSE, key=lambda c: (not c.isalpha(), not c.islower(), c != ' ', c)):
         key = tuple(ch in s for s in ordered)
         sig.setdefault(key, ch)
     return list(sig.values())
